@@ -236,6 +236,62 @@ def cli_lookups(case, note):
 
 
 # ---------------------------------------------------------------------------
+# several command lines in one process
+# ---------------------------------------------------------------------------
+
+@st.composite
+def sequence_case(draw):
+    c = draw(cli_case())
+    steps = []
+    for _ in range(draw(st.integers(2, 4))):
+        on = [draw(st.booleans()) and draw(st.booleans()) for _ in SWITCHES]
+        groups = draw(st.lists(st.sampled_from(list(group_table().keys())), max_size=3))
+        steps.append({'on': on, 'groups': groups, 'mode': draw(st.sampled_from(['-n', '-l']))})
+    return {'pels': c['pels'], 'steps': steps}
+
+
+@PROP.given('cli-sequences', lambda tier: sequence_case(), quick=200, thorough=4000, shards_quick=8)
+def cli_sequences(case, note):
+    """peltool.main() called repeatedly in one process: the selection of each call follows from its own
+    options only"""
+    import json
+    from ..run import main_inprocess
+    d = tempfile.mkdtemp(prefix='c07s')
+    try:
+        for i, (sev, flags) in enumerate(case['pels']):
+            pel = M.minimal_pel([M.default_src()], ph=M.default_ph(eid=0x50000000 + i, plid=0x50000000 + i),
+                                uh=M.default_uh(sev=sev, flags=flags))
+            with open(os.path.join(d, 'pel%02d' % i), 'wb') as fh:
+                fh.write(M.encode(pel))
+        gt = group_table()
+        for k, st_ in enumerate(case['steps']):
+            sub_case = {'on': st_['on'], 'groups': st_['groups'], 'style': 'separate', 'mode': st_['mode'],
+                        'sev_pos': 'after'}
+            argv = build_argv(sub_case, d)
+            status, out, err = main_inprocess(argv)
+            note.extra_eval += 1
+            groups = frozenset(gt[g] for g in st_['groups'])
+            E, s, N, H, t, O = st_['on']
+            want = [i for i, (sev, flags) in enumerate(case['pels'])
+                    if ref_selected(sev, flags, E, s, N, H, t, O, groups)]
+            try:
+                doc = json.loads(out)
+            except ValueError:
+                raise Violation('C07.sequence', 'call %d (%s) printed no JSON: %r %r' % (k + 1, ' '.join(argv), out[:100], err[:200]))
+            got = doc.get('Number of PELs found') if st_['mode'] == '-n' else len(doc)
+            if status != 0 or got != len(want):
+                prev = [' '.join(build_argv({'on': p['on'], 'groups': p['groups'], 'style': 'separate', 'mode': p['mode'],
+                                             'sev_pos': 'after'}, '<dir>')) for p in case['steps'][:k]]
+                raise Violation('C07.sequence', 'call %d in one process, peltool %s, selects %r PELs; the documented rules '
+                                'select %d of %r (earlier calls: %r)' % (k + 1, ' '.join(argv[:-2] if argv[-2] == '-p' else argv),
+                                                                         got, len(want), case['pels'], prev),
+                                sig='C07.sequence')
+        note.nontrivial = any(s_['groups'] for s_ in case['steps'][:-1])
+    finally:
+        shutil.rmtree(d, ignore_errors=True)
+
+
+# ---------------------------------------------------------------------------
 # command line -> selection
 # ---------------------------------------------------------------------------
 
